@@ -42,9 +42,13 @@ TRUSTED = [
     'modelled not verified: Python str.split/join/replace/format, list handling in merge_escape_parts, namedtuple, '
     'RxPY synchronous delivery, text-mode file reads (f.read(n) = n characters; universal-newline translation is '
     'why \\r is excluded)',
-    'oracle assumptions about CPython (hypotheses of the theorems, validated on every generated number by the '
-    'correspondence, not proved): int(str(n)) == n; float(str(x)) == x bit for bit (shortest-repr round trip); '
-    'str() of an int/float/bool is non-empty, contains no separator and no newline and does not start with a '
+    'int layer: str(n) and int(text) are MODELLED (Container/IntText.v: decimal digits with a leading minus sign; '
+    'optional sign + ASCII digits) with their laws proved (IntTextProofs.v) and compared with CPython on every int and '
+    'every int text of every case (int_layer_ok); int(text) for texts with whitespace, underscores or non-ASCII digits '
+    'is outside the model',
+    'oracle assumptions about CPython for FLOATS (hypotheses of the theorems, validated on every generated number by '
+    'the correspondence, not proved): float(str(x)) == x bit for bit (shortest-repr round trip); '
+    'str() of a float/bool is non-empty, contains no separator and no newline and does not start with a '
     'double quote',
     'multi-character separators: correspondence only (the theorems are for a one-character separator)',
     'scale family (lines of several read chunks, texts of several MiB, hundreds of columns): judged by the model-free '
@@ -1066,8 +1070,10 @@ CLAIM = {
             'line.unframe -> csv.load.',
     'note': 'Trusted: Coq kernel+VM; hand-written model of csv.py/line.py/file.py (tied by correspondence only); '
             'Python str.split/join/replace and text-mode file reads are modelled, not verified. Number layer: '
-            'str(), int(), float() are abstract functions in the theorems with the hypotheses int(str n) = n, '
-            'float(str x) = x (shortest-repr round trip), str of a number/bool is non-empty, has no separator, no '
+            'str(n) / int(text) for ints are concrete Coq functions with their laws proved (the C18_*_int_concrete theorems '
+            'keep only the float hypotheses) and compared with CPython on every int of every case; str(x) / float(text) '
+            'remain abstract functions in the theorems with the hypotheses '
+            'float(str x) = x (shortest-repr round trip), str of a float/bool is non-empty, has no separator, no '
             'newline and no leading double quote - oracle assumptions about CPython, validated by the '
             'correspondence on every generated number (laws_ok), not proved. \\r excluded because load_from_file '
             'reads in text mode (universal newlines).',
